@@ -4,7 +4,7 @@
 import json, os, shutil, subprocess, sys
 prop, m = sys.argv[1], sys.argv[2]
 needs = " ".join(sys.argv[3:])
-src = f"/tmp/seed/{prop}/seed_out/{m}"
+src = os.path.join(os.environ.get("SEED_ROOT", "/tmp/seed"), prop, "seed_out", os.environ.get("SEED_SRC", m))
 dst = f"/verif/seeded/{prop}-{m}"
 os.makedirs(dst, exist_ok=True)
 if os.path.isdir(src):
